@@ -27,7 +27,7 @@ func init() {
 	props["C11"] = &propDef{
 		header:    "From BE Require Import Corr.CheckC11.",
 		headers:   map[string]string{"E": "From BE Require Import Corr.CheckE2E.", "R": "From BE Require Import Corr.CheckRr."},
-		rule:      "exhaustive boundary grid (doc in 24 boundary values x idx,size in 11 boundary values) plus seeded random triples, entry pairs, roaring pairs and casts; through build and retrieval: every boundary id alone and together with the other in-range boundary ids as documents of 1..4 conjunctions (include-only, exclude-only, mixed) on the k-groups and compact indexes (under the error, skip and panic policies in turn; Retrieve and the recording collector) and on the roaring index (Retrieve, RetrieveDocs, GetRawResult, WithHint with the extreme ids), ids just outside the range offered to AddDocument; documents of 255, 256, 257 and 300 conjunctions (positions at and beyond the last encodable one); conjunctions of 127..255 include fields sharing posting lists with small ones; a third of the non-batch roaring cases and a dedicated case with ids 2^53+1 .. 2^55-1 add every document decoded from its own JSON encoding (the id a plain JSON number); a case is non-trivial when the ids involved are accepted and non-zero (conj/rr), when both conjunction ids are < 2^60 (entry), always for casts, when some retrieval returns a non-empty proper subset (through retrieval); distinct = distinct input",
+		rule:      "exhaustive boundary grid (doc in 24 boundary values x idx,size in 11 boundary values) plus seeded random triples, entry pairs, roaring pairs and casts; through build and retrieval: every boundary id alone and together with the other in-range boundary ids as documents of 1..4 conjunctions (include-only, exclude-only, mixed) on the k-groups and compact indexes (under the error, skip and panic policies in turn; Retrieve and the recording collector) and on the roaring index (Retrieve, RetrieveDocs, GetRawResult, WithHint with the extreme ids), ids just outside the range offered to AddDocument; documents of 255, 256, 257 and 300 conjunctions (positions at and beyond the last encodable one); conjunctions of 127..255 include fields sharing posting lists with small ones; documents of two and three include-free conjunctions at the boundary ids; a third of the non-batch roaring cases and a dedicated case with ids 2^53+1 .. 2^55-1 add every document decoded from its own JSON encoding (the id a plain JSON number); a case is non-trivial when the ids involved are accepted and non-zero (conj/rr), when both conjunction ids are < 2^60 (entry), always for casts, when some retrieval returns a non-empty proper subset (through retrieval); distinct = distinct input",
 		shardSize: 1500,
 		gen: func(tier string, r *Rand, add func(in interface{})) {
 			for _, d := range docs {
@@ -268,6 +268,17 @@ func c11Retrieval(tier string, r *Rand, ids []int64, add func(in interface{})) {
 				c.Ops = append(c.Ops, rOp{S: 0, Op: "reset"}, rOp{S: 0, Op: "hint", Hint: []int64{1<<53 + 1, 1<<55 - 2}}, rOp{S: 0, Op: "docs", A: []eAssign{{F: 1, V: ivs(0, 1, 2)}}}, rOp{S: 0, Op: "raw"})
 				add(c)
 			}
+		}
+		// several include-free conjunctions in one document: each position keeps its own match-everything entry
+		{
+			neg := []eConj{{{F: 0, Inc: false, V: ivs(1)}}, {{F: 1, Inc: false, V: ivs(3)}}, {{F: 0, Inc: false, V: ivs(2)}, {F: 1, Inc: false, V: ivs(1)}}}
+			var docs []eDoc
+			for _, d := range []int64{7, -7, lim, -lim, 0} {
+				docs = append(docs, eDoc{ID: d, Cons: neg})
+			}
+			docs = append(docs, eDoc{ID: 9, Cons: neg[1:]}, eDoc{ID: -9, Cons: []eConj{{}, neg[0]}})
+			emit(docs)
+			emit(docs[:2])
 		}
 		// conjunction positions at and beyond the limit (position 255 is the last encodable one): documents
 		// of 255, 256, 257 and 300 conjunctions, each conjunction matched by its own value
